@@ -23,6 +23,42 @@ def getIdx {α : Type} : List α → Nat → Except String α
   | x :: _, 0 => .ok x
   | _ :: xs, i + 1 => getIdx xs i
 
+/-- `any(f(x) for x in xs)` where `f` may raise: left to right, stops at the first truthy value or exception -/
+def anyE {α : Type} (f : α → Except String Bool) : List α → Except String Bool
+  | [] => .ok false
+  | x :: xs =>
+    match f x with
+    | .error e => .error e
+    | .ok true => .ok true
+    | .ok false => anyE f xs
+
+/-- `all(f(x) for x in xs)` where `f` may raise -/
+def allE {α : Type} (f : α → Except String Bool) : List α → Except String Bool
+  | [] => .ok true
+  | x :: xs =>
+    match f x with
+    | .error e => .error e
+    | .ok false => .ok false
+    | .ok true => allE f xs
+
+theorem anyE_ok {α : Type} (f : α → Except String Bool) (g : α → Bool) (h : ∀ x, f x = .ok (g x)) :
+    ∀ l : List α, anyE f l = .ok (l.any g) := by
+  intro l
+  induction l with
+  | nil => rfl
+  | cons x xs ih => simp only [anyE, h x, List.any_cons]; cases g x <;> simp [ih]
+
+theorem anyE_ok_mem {α : Type} (f : α → Except String Bool) (g : α → Bool) :
+    ∀ l : List α, (∀ x ∈ l, f x = .ok (g x)) → anyE f l = .ok (l.any g) := by
+  intro l
+  induction l with
+  | nil => intro _; rfl
+  | cons x xs ih =>
+    intro h
+    have hx := h x (by simp)
+    have ih' := ih (fun y hy => h y (by simp [hy]))
+    simp only [anyE, hx, List.any_cons]; cases g x <;> simp [ih']
+
 /-- a comprehension whose test never raises is `List.filter` -/
 theorem filterE_ok {α : Type} (f : α → Except String Bool) (g : α → Bool) (h : ∀ x, f x = .ok (g x)) :
     ∀ l : List α, filterE f l = .ok (l.filter g) := by
